@@ -859,12 +859,22 @@ func (dht *FullRT) getValues(ctx context.Context, key string) (<-chan RecvdVal, 
 	logger.Debugw("finding value", "key", internal.LoggableRecordKeyString(key))
 
 	if rec, err := dht.getLocal(ctx, key); rec != nil && err == nil {
-		select {
-		case valCh <- RecvdVal{
-			Val:  rec.GetValue(),
-			From: dht.h.ID(),
-		}:
-		case <-ctx.Done():
+		// The value store only age-checks records on read; run the validator so
+		// the local record enters the search under the same rules as records
+		// received from the network (as IpfsDHT.getValues does). Otherwise a
+		// stored record that has since expired by the validator's rules (e.g.
+		// IPNS EOL) would be emitted to SearchValue callers as if valid, and
+		// could shadow valid records returned by peers.
+		if err := dht.Validator.Validate(key, rec.GetValue()); err != nil {
+			logger.Debugw("local record verify failed", "key", internal.LoggableRecordKeyString(key), "error", err)
+		} else {
+			select {
+			case valCh <- RecvdVal{
+				Val:  rec.GetValue(),
+				From: dht.h.ID(),
+			}:
+			case <-ctx.Done():
+			}
 		}
 	}
 	peers, err := dht.GetClosestPeers(ctx, key)
